@@ -121,4 +121,75 @@ Section Minerals.
               Ok (Fdot ++ map (fun x => x * s) (flat_map (arr_to_list 9) ads) ++ map (fun x => x * s) fds)
           end
     end.
+
+  (* ==== the driver around the integrator (round 5; tied to the source by Inst_minerals_drv.v) ==== *)
+
+  (* ---- the problem instance Mineral.update_orientations hands to scipy's LSODA:
+         LSODA(eval_rhs, t0, y0, t_bound, atol=|y0 * 1e-6| + 1e-4, rtol=1e-6, first_step=|t_bound - t0| * 1e-1,
+               lband=None, uband=None)            (no max_step / min_step: LSODA's defaults inf / 0)
+     The three literals are the binary64 values of 1e-6, 1e-4, 1e-1 (exact rationals). *)
+  Definition c_1em6 : F := ofZ 4722366482869645 / ofZ 4722366482869645213696.
+  Definition c_1em4 : F := ofZ 7378697629483821 / ofZ 73786976294838206464.
+  Definition c_1em1 : F := ofZ 3602879701896397 / ofZ 36028797018963968.
+
+  Record lsoda_problem := {
+    lp_t0 : F; lp_y0 : list F; lp_tb : F;          (* start time, start vector, end time *)
+    lp_atol : list F; lp_rtol : F; lp_first : F }.  (* per-component absolute tolerance, relative tolerance, first step *)
+
+  (* y_start = np.hstack((F.flatten(), orientations[-1].flatten(), fractions[-1])) *)
+  Definition y_start (Fd : list F) (s : snapshot) : list F := Fd ++ concat (sn_o s) ++ sn_f s.
+
+  Definition lsoda_problem_of (Fd : list F) (s : snapshot) (t0 t1 : F) : lsoda_problem :=
+    let y0 := y_start Fd s in
+    {| lp_t0 := t0; lp_y0 := y0; lp_tb := t1;
+       lp_atol := map (fun v => nabs (v * c_1em6) + c_1em4) y0;
+       lp_rtol := c_1em6;
+       lp_first := nabs (t1 - t0) * c_1em1 |}.
+
+  (* ---- the solver loop: perform_step is called once, then while solver.status == "running".
+     Each step hands back the integrator's state vector (an oracle) or fails
+     (step() returns a message and the status is "failed": IterationError, nothing stored).
+     The update post-processes the LAST vector; the vectors of earlier steps do not reach the
+     stored snapshot (their sliding write-back goes into the integrator's own vector, which the
+     integrator replaces at its next step). *)
+  Fixpoint solver_loop (steps : list (res (list F))) : res (list F) :=
+    match steps with
+    | [] => Err OtherError                      (* not reachable: at least one step is taken *)
+    | r :: rest =>
+        match r with
+        | Err e => Err e
+        | Ok y => match rest with [] => Ok y | _ :: _ => solver_loop rest end
+        end
+    end.
+
+  Definition update_steps (n : nat) (chi : F) (h : history) (steps : list (res (list F)))
+    : res (list F) * history := update_history n chi h (solver_loop steps).
+
+  (* ---- pydrex.update_all(minerals, params, F, ...): every mineral is updated from the SAME
+     starting F, in list order; the value is the F returned by the last one; an exception of one
+     update leaves the call (minerals before it are updated, it and the later ones are not);
+     an empty list has no value (UnboundLocalError). *)
+  Fixpoint update_all (n : nat) (chi : F) (hs : list history) (rys : list (res (list F))) (acc : res (list F))
+    : res (list F) * list history :=
+    match hs, rys with
+    | h :: hs', ry :: rys' =>
+        let '(r, h') := update_history n chi h ry in
+        match r with
+        | Err e => (Err e, h' :: hs')
+        | Ok Fb => let '(r', hs'') := update_all n chi hs' rys' (Ok Fb) in (r', h' :: hs'')
+        end
+    | _, _ => (acc, hs)
+    end.
+  Definition bulk_update (n : nat) (chi : F) (hs : list history) (rys : list (res (list F))) :=
+    update_all n chi hs rys (Err OtherError).
+  (* the start vectors of the K integrators of one bulk update *)
+  Definition bulk_y0 (Fd : list F) (hs : list history) : list (list F) :=
+    map (fun h => y_start Fd (last_snapshot h)) hs.
+
+  (* ---- Mineral.__post_init__: the first stored snapshot.  Without *_init arguments: orientations
+     = Rotation.random(n, random_state=seed).as_matrix() (oracle R), fractions = np.full(n, 1.0 / n);
+     with them: stored as given (no validation, no normalisation). *)
+  Definition init_default (n : nat) (R : list (list F)) : snapshot :=
+    {| sn_o := R; sn_f := repeat (one / ofZ (Z.of_nat n)) n |}.
+  Definition init_user (o : list (list F)) (f : list F) : snapshot := {| sn_o := o; sn_f := f |}.
 End Minerals.
